@@ -566,11 +566,10 @@ func (p *bndProver) executedFacts() {
 			if ins == p.at {
 				break
 			}
-			// Within one statement the order of index operations relative to function calls is
-			// not fixed by the language (the compiler evaluates the operands that contain calls
-			// first), so "came earlier in go/ssa's order" is evidence only across statements, or
-			// within a statement without calls.
-			if sameStmtWithCall(p.c, ins.Pos(), p.at.Pos()) {
+			// Within one statement the language does not fix the order of index operations (the
+			// compiler evaluates the operands that contain calls first), so "came earlier in
+			// go/ssa's order" is evidence only across statements.
+			if sameStmt(p.c, ins.Pos(), p.at.Pos()) {
 				continue
 			}
 			switch v := ins.(type) {
@@ -600,8 +599,8 @@ func (p *bndProver) executedFacts() {
 	}
 }
 
-// sameStmtWithCall: both positions lie in the same simple statement (or the same condition/tag
-// expression of a compound one) and that unit contains a function call.
+// stmtUnitAt: the simple statement (or the condition, tag or range operand of a compound one)
+// that holds the position.
 var stmtUnitCache = map[token.Pos]ast.Node{}
 
 func stmtUnitAt(c *Ctx, pos token.Pos) ast.Node {
@@ -639,39 +638,11 @@ func stmtUnitAt(c *Ctx, pos token.Pos) ast.Node {
 	return unit
 }
 
-var unitHasCallCache = map[ast.Node]bool{}
-
-func sameStmtWithCall(c *Ctx, a, b token.Pos) bool {
+// sameStmt: both positions lie in the same simple statement (or the same condition/tag
+// expression of a compound one).
+func sameStmt(c *Ctx, a, b token.Pos) bool {
 	ua := stmtUnitAt(c, a)
-	if ua == nil || ua != stmtUnitAt(c, b) {
-		return false
-	}
-	if v, ok := unitHasCallCache[ua]; ok {
-		return v
-	}
-	has := false
-	ast.Inspect(ua, func(n ast.Node) bool {
-		if _, isLit := n.(*ast.FuncLit); isLit {
-			return false
-		}
-		if call, ok := n.(*ast.CallExpr); ok {
-			isConvOrBuiltin := false
-			for _, pkg := range c.W.All {
-				if tv, ok := pkg.TypesInfo.Types[call.Fun]; ok {
-					if tv.IsType() || tv.IsBuiltin() {
-						isConvOrBuiltin = true
-					}
-					break
-				}
-			}
-			if !isConvOrBuiltin {
-				has = true
-			}
-		}
-		return !has
-	})
-	unitHasCallCache[ua] = has
-	return has
+	return ua != nil && ua == stmtUnitAt(c, b)
 }
 
 func (p *bndProver) inRange(idx, x ssa.Value) {
